@@ -454,10 +454,14 @@ def generate(rng, profile):
     moving = set()
     blocks = []           # (entry index, position, kind, sign, [Line...], else-lines or None)
     has_data = False
+    colon_hazard = False
     alt_bytes = []
     data_targets = []
     kinds_pool = list(KINDS)
     sub_rate = rng.choice([0.1, 0.25, 0.45])
+    label_inserts = rng.random() < 0.05       # labels on '>'/'+' instructions: mechanism of finding C04-label-on-inserted-instruction
+    keep_inserts = rng.random() < 0.03        # @keep on a line that also inserts instructions: finding C04-keep-reaches-inserted-instructions
+    keep_insert_seen = False
     for ei, ent in enumerate(entries):
         lines = ent['lines']
         skip_until = -1
@@ -508,15 +512,22 @@ def generate(rng, profile):
                         vals = ','.join(g.num(rng.randrange(65536), 4) for _ in range(rng.randint(1, 3)))
                     else:
                         vals = ','.join(rng.choice([g.num(rng.randrange(256)), g.string(rng.randint(1, 4))]) for _ in range(rng.randint(1, 4)))
-                        if ':' in vals and rng.random() < 0.9:
-                            vals = vals.replace(':', '.')       # a colon inside a string of a data directive: see finding C04-data-directive-colon
+                        if ':' in vals:
+                            vals = vals.replace(':', '.')
                     if rng.random() < 0.6:
                         tgt = rng.choice([rng.randrange(org, end), end + rng.randrange(0, 24), max(0, org - rng.randrange(1, 20))])
                         ln.pre.append('@%s=%s:%s' % (d, g.num(tgt, 4), vals))
                     else:
                         ln.pre.append('@%s=%s' % (d, vals))
                     if rng.random() < 0.3:
-                        ln.pre[-1] += ' ; ' + words(rng, 1, 3)
+                        # "may be followed by a semicolon and arbitrary text, which will be ignored"; a colon in that text is the
+                        # mechanism of finding C04-data-directive-colon-in-comment, so it is written rarely and flagged
+                        w = words(rng, 1, 3)
+                        if ':' in w and rng.random() < 0.85:
+                            w = w.replace(':', '')
+                        if ':' in w:
+                            colon_hazard = True
+                        ln.pre[-1] += ' ; ' + (w.strip() or 'x')
                     g.features.add('data-' + d)
                 if rng.random() < 0.3:
                     ln.comment = words(rng)
@@ -526,12 +537,20 @@ def generate(rng, profile):
             nk = 1 if rng.random() < 0.75 else 2
             line_kinds = rng.sample(kinds_pool, nk)
             free_kinds = [k for k in kinds_pool if k not in line_kinds]      # one directive group per kind and line
+            line_shapes = []
             for kind in line_kinds:
                 rigid_only = profile == 'rigid'
                 shapes = ['same', 'same', 'same-label', 'label-only', 'comment-only', 'nolabel']
                 if not rigid_only:
-                    shapes += ['resize', 'before', 'after', 'replace+after', 'before+after', 'overwrite', 'remove', 'multi-before'] * 3 + ['after-label']
+                    shapes += ['resize', 'before', 'after', 'replace+after', 'before+after', 'overwrite', 'remove', 'multi-before'] + (['after-label'] if label_inserts else [])
+                if any(x in ('overwrite', 'remove') for x in line_shapes):
+                    # an overwrite into a range that another directive of the same line removes is contradictory input
+                    shapes = [x for x in shapes if x not in ('overwrite', 'remove')]
+                if ln.first and not label_inserts:
+                    # an entry that begins with an inserted instruction gets its -c label on an instruction without address
+                    shapes = [x for x in shapes if x not in ('before', 'multi-before', 'before+after')]
                 shape = rng.choice(shapes)
+                line_shapes.append(shape)
                 dirs = []
                 ops = []
                 rigid = True
@@ -565,7 +584,7 @@ def generate(rng, profile):
                     for _ in range(1 if shape == 'before' else rng.randint(2, 3)):
                         o = g.any_op()
                         ops.append(o)
-                        lab = '%s:' % g.new_label() if rng.random() < 0.06 else ''
+                        lab = '%s:' % g.new_label() if label_inserts and rng.random() < 0.3 else ''
                         dirs.append('>' + lab + o.text)
                     rigid = False
                 elif shape in ('after', 'after-label'):
@@ -665,6 +684,12 @@ def generate(rng, profile):
                         ln.pre.append('@%s=%s' % (kind, d))
             if rng.random() < 0.3:
                 ln.comment = words(rng)
+            if any(not rg for k, rg, o in ln.subs) and any(isinstance(p, str) and p.startswith('@keep') for p in ln.pre):
+                # skool2bin applies @keep to the inserted instructions too, skool2asm only to the instruction in the line
+                if keep_inserts:
+                    keep_insert_seen = True
+                else:
+                    ln.pre = [p for p in ln.pre if not (isinstance(p, str) and p.startswith('@keep'))]
     # ---- block directives (whole lines inside @kind+begin/@kind-begin ... [@kind+else] ... @kind+end)
     if profile != 'rigid' and rng.random() < 0.3:
         cands = [(ei, i) for ei, ent in enumerate(entries) for i, ln in enumerate(ent['lines']) if i > 0 and not ln.reserved]
@@ -711,6 +736,14 @@ def generate(rng, profile):
                 ln.pre = [_drop_label_removal(p) for p in ln.pre]
                 ln.label_removed = False
     unlabelled = sorted(v for v in referenced if by_addr[v].label is None or by_addr[v].label_removed)
+    # the probe entry that render() appends at `end` is an instruction too
+    probe_label = None
+    if any(end in o.refs for o in all_ops):
+        referenced.add(end)
+        if profile == 'fluid' or rng.random() < 0.3:
+            probe_label = g.new_label()
+        else:
+            unlabelled.append(end)
     f = SkoolFile()
     f.entries, f.equs, f.blocks = entries, equs, blocks
     f.style, f.hexaddr = style, hexaddr
@@ -720,6 +753,9 @@ def generate(rng, profile):
     f.referenced = sorted(referenced)
     f.alt_bytes = alt_bytes
     f.has_data = has_data
+    f.colon_hazard = colon_hazard
+    f.probe_label = probe_label
+    f.keep_insert = keep_insert_seen
     f.data_targets = data_targets
     f.features = sorted(g.features)
     f.profile = profile
@@ -774,6 +810,8 @@ class SkoolFile:
         out.append('; PEEK probe')
         out.append(';')
         out.append('; PKBEGIN:#FOR(%d,%d)(n,#PEEKn,/):PKEND' % (lo, hi))
+        if self.probe_label:
+            out.append('@label=' + self.probe_label)
         out.append('b%s DEFB 0' % self._addr(self.end))
         if rng.random() < 0.5:
             out.append('@end')
@@ -834,6 +872,6 @@ class SkoolFile:
         return '\n'.join(lines)
 
     def meta(self):
-        return {'moving': self.moving, 'unlabelled_refs': self.unlabelled_refs, 'alt_bytes': self.alt_bytes, 'has_data': self.has_data,
+        return {'moving': self.moving, 'unlabelled_refs': self.unlabelled_refs, 'alt_bytes': self.alt_bytes, 'has_data': self.has_data, 'colon_hazard': self.colon_hazard, 'keep_insert': self.keep_insert,
                 'peek': list(self.peek_range()), 'org': self.org, 'end': self.end, 'profile': self.profile,
                 'low_org': self.low_org, 'referenced': len(self.referenced)}
